@@ -185,6 +185,10 @@ func vCorpusFile(i int) (string, []byte) {
 func vMapOrderSite(k int)  {}
 func vMapOrderSites() int { return 0 }
 
+// vFSMark brackets the code under test for the native file-system trace: a marker
+// system call that strace shows (engine: no-op).
+func vFSMark(label string) { _, _ = os.Stat("/verif-fs-mark/" + label + vRootDir()) }
+
 // vFSLog: (engine only) the paths handed to the file-system stubs so far.
 func vFSLog() []string { return nil }
 
